@@ -30,8 +30,8 @@ D0 == <<"d", 0>>        \* an NS rdataset (a delegation, in a B-tree zone) AT th
 GenContentsDeleg == {C(1, {G1}), C(2, {G1, D0}), C(3, {G1}), C(3, {G1, D0, A1})}
 GenInitDeleg == {C(1, {G1}), C(2, {G1, D0})}
 GenContentsTiny  == {C(1, {A1}), C(2, {A1})}
-GenContentsSmall == {C(1, {}), C(1, {A1}), C(2, {A1})}
-GenContentsMid   == {C(1, {}), C(1, {A1}), C(2, {A1}), C(2, {A1, A2, B1}), C(3, {B1}), C(3, {A2})}
+GenContentsSmall == {C(0, {}), C(1, {A1}), C(2, {A1})}
+GenContentsMid   == {C(0, {}), C(1, {A1}), C(2, {A1}), C(2, {A1, A2, B1}), C(3, {B1}), C(3, {A2})}
 GenContents      == GenContentsMid \cup {C(2, {A1, G1}), C(3, {A1, G1, D0})}
 GenNoOffsets == {}
 GenIdOffsets == {-2, -1, 0, 1}
